@@ -35,10 +35,110 @@ theorem diffFromPtr_eq_diff (S : Schema) (fx : Fixes) (A B : List DNode) (hA : w
   unfold diffFromPtr diff diffFull
   simp only [hptr, ite_self, List.drop_zero]
 
+/-- `KeyOrder` is unsatisfiable when the schema has a keyed system-ordered list with a key leaf -/
+theorem keyOrder_no_keyed_list' {S : Schema} (K : KeyOrder S) {s k : Nat} (hs : S.isSorted s = true)
+    (hl : S.isKind s .list = true) (hk : S.isKey k = true) : False := by
+  have hkind : S.kind? s = some .list := isKind_iff.mp hl
+  have hnt : S.isTerm s = false := by simp [Schema.isTerm, Schema.isKind, hkind]
+  have hnu : S.isUserOrd s = false := by
+    unfold Schema.isSorted at hs
+    unfold Schema.isUserOrd
+    cases hg : S.get? s with
+    | none => rfl
+    | some n => simp [hg] at hs ⊢; simp [hs.1]
+  have hnk : S.nkeys s ≠ 0 := by
+    unfold Schema.isSorted at hs
+    unfold Schema.isKind Schema.kind? at hl
+    unfold Schema.nkeys
+    cases hg : S.get? s with
+    | none => simp [hg] at hs
+    | some n =>
+      simp [hg] at hs hl ⊢
+      rcases hs.2 with h | h
+      · rw [hl] at h; exact absurd h (by decide)
+      · exact h.2
+  have hnd : S.isDupInst s = false := by
+    unfold Schema.isDupInst
+    unfold Schema.isKind Schema.kind? at hl
+    unfold Schema.nkeys at hnk
+    cases hg : S.get? s with
+    | none => rfl
+    | some n =>
+      simp [hg] at hl hnk ⊢
+      simp [hl, hnk]
+  let x : DNode := .inner s {} [] []
+  let y : DNode := .inner s {} [] [.term k {} [] []]
+  have hx : Dom S x := ⟨hnu, hnd, by simp [x, DNode.isTerm, DNode.sid, hnt]⟩
+  have hy : Dom S y := ⟨hnu, hnd, by simp [y, DNode.isTerm, DNode.sid, hnt]⟩
+  have hsame : sameInst S x y = false := by
+    simp [sameInst, x, y, DNode.sid, DNode.kids, hkind, hnk, keysOf, hk, keysEq]
+  rcases K.total hx hy rfl hs hsame with h | h
+  · simp [cmpInst, x, y, DNode.isTerm, DNode.kids, keysOf, cmpKeys] at h
+  · simp [cmpInst, x, y, DNode.isTerm, DNode.kids, keysOf, cmpKeys] at h
+
+/-- under `KeyOrder` the instances of well-formed trees that the `sort` callback cannot tell apart are the same instance
+(the hypothesis of C06 `apply_diff_partial`) -/
+theorem keysDistinguished_of_keyOrder {S : Schema} (K : KeyOrder S) (F : List DNode) (hw : wfL S F = true) :
+    KeysDistinguished S F := by
+  intro x y hx hy hs hso hc
+  have hwx := mem_subnodesL_wf S F hw x hx
+  have hwy := mem_subnodesL_wf S F hw y hy
+  have hdx : Dom S x := domB_iff.mp (domB_of_wf S x hwx)
+  have hdy : Dom S y := domB_iff.mp (domB_of_wf S y hwy)
+  rcases isSorted_cases S x.sid hso with ⟨hll, ht⟩ | ⟨hl, hnll, ht⟩
+  · -- leaf-list instances
+    obtain ⟨fx, mx, vx, hxe⟩ := term_of_shape S x (wfNode_shape S x hwx) ht
+    obtain ⟨fy, my, vy, hye⟩ := term_of_shape S y (wfNode_shape S y hwy) (by rw [← hs]; exact ht)
+    have hkx : x.kids = [] := by rw [hxe]; rfl
+    have hky : y.kids = [] := by rw [hye]; rfl
+    refine ⟨by rw [hkx, hky], ?_⟩
+    have hxt : x.isTerm = true := by rw [hxe]; rfl
+    have hyt : y.isTerm = true := by rw [hye]; rfl
+    cases hsame : sameInst S x y with
+    | true =>
+      have hk : S.kind? x.sid = some .leaflist := isKind_iff.mp hll
+      unfold sameInst at hsame
+      simp only [hk, Bool.and_eq_true, beq_iff_eq] at hsame
+      exact hsame.2
+    | false =>
+      exfalso
+      rcases K.total hdx hdy hs hso hsame with h | h
+      · rw [hc] at h; exact absurd h (by decide)
+      · have h1 : cmpInst S x y = (S.ty x.sid).cmp x.val y.val := by simp [cmpInst, hxt]
+        have h2 : cmpInst S y x = (S.ty x.sid).cmp y.val x.val := by simp [cmpInst, hyt, hs]
+        rw [h2, cmp_swap, ← h1, hc] at h
+        exact absurd h (by decide)
+  · -- keyed list instances: there are none under `KeyOrder`
+    exfalso
+    obtain ⟨fx, mx, kx, hxe⟩ := inner_of_shape S x (wfNode_shape S x hwx) (by simp [Schema.isInner, hl])
+    rw [hxe] at hwx
+    have hi := wfNode_inner S _ fx mx kx hwx
+    have hn := nkeys_ne_zero S x.sid hl hdx.ndi
+    have hks := hi.keysSids hl
+    cases hkk : keysOf S kx with
+    | nil =>
+      rw [hkk] at hks
+      have : keySids S x.sid = [] := by simpa using hks.symm
+      simp only [keySids, List.map_eq_nil_iff, List.range_eq_nil] at this
+      exact hn this
+    | cons k rest =>
+      have hkey := keysOf_all_key S kx k (by rw [hkk]; simp)
+      exact keyOrder_no_keyed_list' K hso hl hkey
+
 /-- the reversed diff of `diff(A, B)` applied to `B` itself gives `A` back, up to `normN` (`dataEqL true`) -/
 theorem reverse_apply_literal {S : Schema} {fx : Fixes} (K : KeyOrder S) (A B : List DNode) (hA : wfForest S A = true)
-    (hB : wfForest S B = true) (hk : KeysDistinguished S (A ++ B)) :
+    (hB : wfForest S B = true) :
     ∃ R A', reverse S (diff S true A B) = .ok R ∧ apply S B R fx = .ok A' ∧ normL13 A' = normL13 A := by
+  have hk : KeysDistinguished S (A ++ B) := by
+    apply keysDistinguished_of_keyOrder K
+    have hA' := hA
+    have hB' := hB
+    simp only [wfForest, Bool.and_eq_true] at hA' hB'
+    apply wfL_of_forall
+    intro x hx
+    rcases List.mem_append.1 hx with hx | hx
+    · exact wfL_mem S A x hA'.1.1 hx
+    · exact wfL_mem S B x hB'.1.1 hx
   obtain ⟨B', hB', hnB⟩ := apply_diff_wf S fx A B hA hB hk
   rw [diffFromPtr_eq_diff S fx A B hA hB] at hB'
   obtain ⟨B1, R, A1, h1, _, hR, _, h2, h3⟩ :=
